@@ -98,7 +98,19 @@ def asbuilt_table():
     return "\n".join(out)
 
 
-TABLES = {"FINDINGS": findings_table, "SEEDED": seeded_table, "CLAIMS": claims_table, "ASBUILT": asbuilt_table}
+def thorough_table():
+    d = json.load(open(f"{V}/sweeps/thorough.json"))
+    out = [f"Last full run of the thorough tier on the unchanged tree (/repo at `{d['repo_head']}`), one check at a time with 7 "
+           "solver processes, two checks in parallel:", "",
+           "| property | exit | wall (s) | verdicts | inconclusive queries (solver limit reached; not counted as discharged) |",
+           "|---|---|---|---|---|"]
+    for pid, r in sorted(d["results"].items()):
+        out.append(f"| {pid} | {r['exit']} | {round(r['wall_s'])} | "
+                   f"{', '.join(f'{k}: {v}' for k, v in sorted(r['verdicts'].items()))} | {short('; '.join(r['inconclusive']), 300)} |")
+    return "\n".join(out)
+
+
+TABLES = {"THOROUGH": thorough_table, "FINDINGS": findings_table, "SEEDED": seeded_table, "CLAIMS": claims_table, "ASBUILT": asbuilt_table}
 
 
 def main():
